@@ -3,3 +3,13 @@ open ZCV.Props.C06
 #print axioms C06_include_eq_inline
 #print axioms C06_unclosed_fragment_rejected
 #print axioms C06_stray_close_rejected
+#print axioms C06_include_eq_inline_subst
+#print axioms C06_include_eq_inline_nested
+#print axioms C06_include_eq_inline_nested_ok
+#print axioms C06_fuel_irrelevant
+#print axioms C06_relative_to_includer
+#print axioms C06_relative_nested
+#print axioms C06_relative_nested_missing
+#print axioms C06_definitions_flow
+#print axioms C06_definitions_flow_text
+#print axioms C06_include_eq_inline_nested_rev
